@@ -216,30 +216,30 @@ Section Skeleton2Proofs.
   Variable Normalised : St -> Prop.
   Hypothesis normalise_spec : forall s, Normalised (normalise s).
 
-  (* Tucker drivers as they are: normalised when at least one sweep ran and the run did not stop by convergence *)
+  (* Tucker drivers before 1c1a684: normalised when at least one sweep ran and the run did not stop by convergence *)
   Definition no_convergence_exit (tol_set : bool) (decisions : list bool) : Prop := tol_set = false \/ Forall (fun d => d = false) decisions.
   Lemma no_conv_hd tol_set it ds : no_convergence_exit tol_set ds -> tol_set && (2 <=? it) && hd false ds = false.
   Proof. intros [->|H]; [reflexivity|]. destruct H as [|d l Hd _]; simpl; [now rewrite andb_false_r | subst d; now rewrite andb_false_r]. Qed.
   Lemma no_conv_tl tol_set ds : no_convergence_exit tol_set ds -> no_convergence_exit tol_set (tl ds).
   Proof. intros [H|H]; [now left | right]. destruct H; [constructor | assumption]. Qed.
-  Lemma nt_loop_normalised tol_set fuel : forall it decisions s, no_convergence_exit tol_set decisions ->
-    0 < fuel \/ Normalised s -> Normalised (nt_loop St sweep normalise true tol_set it fuel decisions s).
+  Lemma nt_loop_old_normalised tol_set fuel : forall it decisions s, no_convergence_exit tol_set decisions ->
+    0 < fuel \/ Normalised s -> Normalised (nt_loop_old St sweep normalise true tol_set it fuel decisions s).
   Proof.
     induction fuel as [|fuel IH]; intros it decisions s Hc H.
     - destruct H as [H|H]; [lia | exact H].
-    - cbn [nt_loop]. rewrite (no_conv_hd _ it _ Hc). apply IH; [now apply no_conv_tl|]. right. apply normalise_spec.
+    - cbn [nt_loop_old]. rewrite (no_conv_hd _ it _ Hc). apply IH; [now apply no_conv_tl|]. right. apply normalise_spec.
   Qed.
-  Lemma nt_run_normalised tol_set n decisions s0 : no_convergence_exit tol_set decisions -> 0 < n ->
-    Normalised (nt_run St sweep normalise true tol_set n decisions s0).
-  Proof. intros Hc Hn. unfold nt_run. apply nt_loop_normalised; [exact Hc | now left]. Qed.
+  Lemma nt_run_old_normalised tol_set n decisions s0 : no_convergence_exit tol_set decisions -> 0 < n ->
+    Normalised (nt_run_old St sweep normalise true tol_set n decisions s0).
+  Proof. intros Hc Hn. unfold nt_run_old. apply nt_loop_old_normalised; [exact Hc | now left]. Qed.
   (* caps 1 and 2 can never take the convergence exit (the test needs iteration > 1) *)
-  Lemma nt_run_normalised_small_cap tol_set n decisions s0 : 0 < n -> n <= 2 ->
-    Normalised (nt_run St sweep normalise true tol_set n decisions s0).
+  Lemma nt_run_old_normalised_small_cap tol_set n decisions s0 : 0 < n -> n <= 2 ->
+    Normalised (nt_run_old St sweep normalise true tol_set n decisions s0).
   Proof.
-    intros H1 H2. unfold nt_run. destruct n as [|[|[|n]]]; try lia; cbn [nt_loop Nat.leb]; rewrite ?andb_false_r; cbn [andb]; apply normalise_spec.
+    intros H1 H2. unfold nt_run_old. destruct n as [|[|[|n]]]; try lia; cbn [nt_loop_old Nat.leb]; rewrite ?andb_false_r; cbn [andb]; apply normalise_spec.
   Qed.
 
-  (* parafac2 as it is: normalised as soon as one sweep ran, on both exits *)
+  (* parafac2 before 1c1a684: normalised as soon as one sweep ran, on both exits *)
   Lemma p2_loop_normalised tol_set fuel : forall it decisions s,
     0 < fuel \/ Normalised s -> Normalised (p2_loop St sweep normalise true tol_set it fuel decisions s).
   Proof.
@@ -248,37 +248,46 @@ Section Skeleton2Proofs.
     - cbn [p2_loop]. unfold norm_if. destruct (tol_set && (1 <=? it) && hd false decisions); [apply normalise_spec|].
       apply IH. right. apply normalise_spec.
   Qed.
-  Lemma p2_run_normalised tol_set n decisions s0 : 0 < n ->
-    Normalised (p2_run St sweep normalise true tol_set n decisions s0).
-  Proof. intros Hn. unfold p2_run. apply p2_loop_normalised. now left. Qed.
+  Lemma p2_run_old_normalised tol_set n decisions s0 : 0 < n ->
+    Normalised (p2_run_old St sweep normalise true tol_set n decisions s0).
+  Proof. intros Hn. unfold p2_run_old. apply p2_loop_normalised. now left. Qed.
 
-  (* the candidate repair: every exit, every cap *)
-  Lemma nt_loop_fix_normalised tol_set fuel : forall it decisions s,
-    Normalised s -> Normalised (nt_loop_fix St sweep normalise true tol_set it fuel decisions s).
+  (* the code as it is: every exit, every cap *)
+  Lemma nt_loop_normalised tol_set fuel : forall it decisions s,
+    Normalised s -> Normalised (nt_loop St sweep normalise true tol_set it fuel decisions s).
   Proof.
-    induction fuel as [|fuel IH]; intros it decisions s H; [exact H|]. cbn [nt_loop_fix]. unfold norm_if.
+    induction fuel as [|fuel IH]; intros it decisions s H; [exact H|]. cbn [nt_loop]. unfold norm_if.
     destruct (tol_set && (2 <=? it) && hd false decisions); [apply normalise_spec|]. apply IH. apply normalise_spec.
   Qed.
-  Lemma nt_run_fix_normalised tol_set n decisions s0 : Normalised (nt_run_fix St sweep normalise true tol_set n decisions s0).
-  Proof. unfold nt_run_fix. apply nt_loop_fix_normalised. apply normalise_spec. Qed.
-  Lemma p2_run_fix_normalised tol_set n decisions s0 : Normalised (p2_run_fix St sweep normalise true tol_set n decisions s0).
-  Proof. unfold p2_run_fix. apply p2_loop_normalised. right. apply normalise_spec. Qed.
+  Lemma nt_run_normalised tol_set n decisions s0 : Normalised (nt_run St sweep normalise true tol_set n decisions s0).
+  Proof. unfold nt_run. apply nt_loop_normalised. apply normalise_spec. Qed.
+  Lemma p2_run_normalised tol_set n decisions s0 : Normalised (p2_run St sweep normalise true tol_set n decisions s0).
+  Proof. unfold p2_run. apply p2_loop_normalised. right. apply normalise_spec. Qed.
   (* with normalize_factors = False the repair is the identity change *)
-  Lemma nt_loop_fix_same_nf_false tol_set fuel : forall it decisions s,
-    nt_loop_fix St sweep normalise false tol_set it fuel decisions s = nt_loop St sweep normalise false tol_set it fuel decisions s.
+  Lemma nt_loop_same_nf_false tol_set fuel : forall it decisions s,
+    nt_loop St sweep normalise false tol_set it fuel decisions s = nt_loop_old St sweep normalise false tol_set it fuel decisions s.
   Proof.
-    induction fuel as [|fuel IH]; intros; [reflexivity|]. cbn [nt_loop nt_loop_fix norm_if].
+    induction fuel as [|fuel IH]; intros; [reflexivity|]. cbn [nt_loop_old nt_loop norm_if].
     destruct (tol_set && (2 <=? it) && hd false decisions); [reflexivity | apply IH].
   Qed.
 End Skeleton2Proofs.
 
-Definition ghost_nt (tol_set : bool) (n : nat) (decisions : list bool) : bool :=
-  nt_run bool (fun _ => false) (fun _ => true) true tol_set n decisions false.
-Definition ghost_p2 (tol_set : bool) (n : nat) (decisions : list bool) : bool :=
-  p2_run bool (fun _ => false) (fun _ => true) true tol_set n decisions false.
-Lemma ghost_nt_cap0 : forall tol_set decisions, ghost_nt tol_set 0 decisions = false.
+Definition ghost_nt_old (tol_set : bool) (n : nat) (decisions : list bool) : bool :=
+  nt_run_old bool (fun _ => false) (fun _ => true) true tol_set n decisions false.
+Definition ghost_p2_old (tol_set : bool) (n : nat) (decisions : list bool) : bool :=
+  p2_run_old bool (fun _ => false) (fun _ => true) true tol_set n decisions false.
+Lemma ghost_nt_old_cap0 : forall tol_set decisions, ghost_nt_old tol_set 0 decisions = false.
 Proof. reflexivity. Qed.
-Lemma ghost_nt_convergence : forall n, ghost_nt true (S (S (S n))) [false; false; true] = false.
+Lemma ghost_nt_old_convergence : forall n, ghost_nt_old true (S (S (S n))) [false; false; true] = false.
 Proof. reflexivity. Qed.
-Lemma ghost_p2_cap0 : forall tol_set decisions, ghost_p2 tol_set 0 decisions = false.
+Lemma ghost_p2_old_cap0 : forall tol_set decisions, ghost_p2_old tol_set 0 decisions = false.
 Proof. reflexivity. Qed.
+
+(* the instance compared with the implementation: the returned state is the output of a (cp_ / tucker_)normalize *)
+Lemma trace_run2_ends_normalised d tol_set n decisions : ends_normalised (trace_run2 d true tol_set n decisions) = true.
+Proof.
+  unfold trace_run2. destruct d.
+  - apply (nt_run_normalised (list ev) _ (fun s => s ++ [EvN]) (fun t => ends_normalised t = true)). intros s. apply ends_normalised_snoc.
+  - apply (nt_run_normalised (list ev) _ (fun s => s ++ [EvN]) (fun t => ends_normalised t = true)). intros s. apply ends_normalised_snoc.
+  - apply (p2_run_normalised (list ev) _ (fun s => s ++ [EvN]) (fun t => ends_normalised t = true)). intros s. apply ends_normalised_snoc.
+Qed.
